@@ -610,3 +610,35 @@ def gen_feedback_gated(rng: random.Random) -> dict:
     if rng.random() < 0.5:
         rng.shuffle(nodes)
     return {"name": "g", "nodes": nodes, "bind": {}, "inputs": inputs, "selectors": ["x"], "deterministic": False, "feedback": kind, "table_len": tl}
+
+
+def gen_late_closed_gate(rng: random.Random) -> dict:
+    """A target shared by an entry router and a closed-by-default gate that cannot run before the target itself has
+    produced its output (the gate reads it): when the router selects the target, the target runs - a closed gate
+    that has not decided yet does not veto what another controlling gate selected - whatever the list order."""
+    k = rng.randint(2, 3)
+    others = [f"u{j}" for j in range(k - 1)]
+    tl = rng.randint(2, 4)
+    if k == 2 and rng.random() < 0.5:
+        router = {"k": "ifelse", "name": "router", "params": [{"n": "s"}], "key": "s", "t": "tgt", "f": others[0], "table": [True] + [rng.random() < 0.5 for _ in range(tl - 1)]}
+    else:
+        pool = ["tgt"] + others
+        router = {"k": "route", "name": "router", "params": [{"n": "s"}], "key": "s", "targets": pool, "table": ["tgt"] + [rng.choice(pool) for _ in range(tl - 1)]}
+    router["open"] = rng.random() < 0.5
+    lg_pool = ["tgt", "END"]
+    if rng.random() < 0.5:
+        lg = {"k": "route", "name": "again", "params": [{"n": "t_out"}], "key": "t_out", "targets": lg_pool, "table": ["END"] * rng.randint(1, 3), "open": False}
+    else:
+        lg = {"k": "ifelse", "name": "again", "params": [{"n": "t_out"}], "key": "t_out", "t": "tgt", "f": "after", "table": [False] * rng.randint(1, 3), "open": False}
+    nodes = [router, {"k": "fn", "name": "tgt", "params": [{"n": "x"}], "outs": ["t_out"]}]
+    nodes += [{"k": "fn", "name": u, "params": [{"n": "x"}], "outs": [f"{u}_out"]} for u in others]
+    nodes.append(lg)
+    if lg["k"] == "ifelse":
+        nodes.append({"k": "fn", "name": "after", "params": [{"n": "t_out"}], "outs": ["after_out"]})
+    order = rng.choice(["closed-gate-first", "router-first", "shuffled"])
+    if order == "closed-gate-first":
+        nodes.remove(lg)
+        nodes.insert(0, lg)
+    elif order == "shuffled":
+        rng.shuffle(nodes)
+    return {"name": "g", "nodes": nodes, "bind": {}, "inputs": ["s", "x"], "selectors": ["s"], "deterministic": False, "table_len": tl, "late_closed": True}
